@@ -73,6 +73,12 @@ pub enum Fam {
     /// while nothing reads it, so the key's value can change while its per-key input node is alive but unneeded
     /// (added after seeded change C16-c)
     OuterSwitch,
+    /// (a'') `|k, v| { export(v.clone()); v.map(|x| 10k + x) }`: the function hands a clone of every per-key input
+    /// node to the outside, and the harness observes the first one for good: the operator's internal driver then keeps
+    /// running while the output itself is unobserved (added after seeded change C16-e). Not part of `ALL`; judged for
+    /// C16 only (the operator's diff baseline moves while the output is unobserved, which the C17 bookkeeping of
+    /// this world does not follow).
+    Leak,
 }
 
 impl Fam {
@@ -93,12 +99,13 @@ impl Fam {
             Fam::SharedConst => "shared_const",
             Fam::SharedHalfPinned => "shared_half_pinned",
             Fam::OuterSwitch => "outer_switch",
+            Fam::Leak => "leak",
         }
     }
     /// the family of the property text this variant belongs to (used in cause signatures)
     pub fn class(self) -> &'static str {
         match self {
-            Fam::Pure => "pure",
+            Fam::Pure | Fam::Leak => "pure",
             Fam::Identity => "identity",
             Fam::Map2 => "map2",
             Fam::BindExisting | Fam::BindFresh | Fam::OuterSwitch => "bind",
@@ -107,13 +114,13 @@ impl Fam {
         }
     }
     fn from_name(s: &str) -> Option<Fam> {
-        Fam::ALL.iter().copied().find(|f| f.name() == s)
+        Fam::ALL.iter().copied().chain([Fam::Leak]).find(|f| f.name() == s)
     }
     /// the user's per-key computation, before the filter
     fn per_key(self, k: K, x: V, d: i32) -> i32 {
         let k = k as i32;
         match self {
-            Fam::Pure => 10 * k + x,
+            Fam::Pure | Fam::Leak => 10 * k + x,
             Fam::Identity => x,
             Fam::Map2 => 10 * k + x + d,
             Fam::BindExisting => {
@@ -299,6 +306,12 @@ impl Out for Option<i32> {
 
 type UserFn<T> = Box<dyn FnMut(&K, Incr<V>) -> Incr<T>>;
 
+thread_local! {
+    /// family `leak`: while a world is being built, the table its user function will export per-key input nodes to
+    /// (each world owns its own table; the closure captures it)
+    static LEAK: std::cell::RefCell<Option<std::rc::Rc<std::cell::RefCell<Vec<Incr<V>>>>>> = std::cell::RefCell::new(None);
+}
+
 /// Build the per-key user function of family `fam`. Nodes that the property calls
 /// "pre-existing" are created here, i.e. before the operator and outside any stabilisation.
 fn user_fn<T: Out>(fam: Fam, state: &IncrState, outer: &Incr<i32>) -> UserFn<T> {
@@ -310,6 +323,17 @@ fn user_fn<T: Out>(fam: Fam, state: &IncrState, outer: &Incr<i32>) -> UserFn<T> 
                 T::wrap(fam.per_key(k, *x, 0))
             })
         }),
+        Fam::Leak => {
+            let table = LEAK.with(|l| l.borrow().clone()).expect("leak table installed by PkWorld::new");
+            Box::new(move |k, v| {
+            let k = *k;
+            table.borrow_mut().push(v.clone());
+            v.map(move |x| {
+                log(Ev::Fn { key: Some(k), role: "map", args: vec![*x] });
+                T::wrap(fam.per_key(k, *x, 0))
+            })
+            })
+        }
         Fam::Identity => Box::new(|_k, v| T::identity(v)),
         Fam::Map2 => {
             let outer = outer.clone();
@@ -487,6 +511,9 @@ struct Real {
     outer_var: Var<i32>,
     /// family `shared_half_pinned`: an observer of its own on the outer variable
     _outer_pin: Option<Observer<i32>>,
+    /// family `leak`: permanent observer on the first per-key input node the user function exported
+    leak_pin: Option<Observer<V>>,
+    leak_table: std::rc::Rc<std::cell::RefCell<Vec<Incr<V>>>>,
     state: IncrState,
 }
 
@@ -556,6 +583,12 @@ impl PkWorld {
             }
             Act::Stabilise => {
                 r.state.stabilise();
+                if prog.fam == Fam::Leak && r.leak_pin.is_none() {
+                    let first = r.leak_table.borrow().first().cloned();
+                    if let Some(first) = first {
+                        r.leak_pin = Some(first.observe());
+                    }
+                }
                 r.obs.as_ref().map(|o| match o {
                     Obs::B(o) => o.try_get_value().map_err(|e| format!("{e:?}")),
                     Obs::O(o) => o.try_get_value().map(|m| to_bm(&m)).map_err(|e| format!("{e:?}")),
@@ -710,6 +743,8 @@ impl World for PkWorld {
         let _ = take_log();
         let p = prog.clone();
         let built = catch(move || {
+            let leak_table = std::rc::Rc::new(std::cell::RefCell::new(vec![]));
+            LEAK.with(|l| *l.borrow_mut() = Some(leak_table.clone()));
             let state = IncrState::new();
             let outer_var = state.var(0i32);
             let (var, out) = build(&p, &state, &outer_var.watch());
@@ -718,7 +753,8 @@ impl World for PkWorld {
                 OutNode::O(i) => Obs::O(i.observe()),
             });
             let _outer_pin = if p.fam == Fam::SharedHalfPinned { Some(outer_var.watch().observe()) } else { None };
-            Real { obs, out, var, outer_var, _outer_pin, state }
+            LEAK.with(|l| *l.borrow_mut() = None);
+            Real { obs, out, var, outer_var, _outer_pin, leak_pin: None, leak_table, state }
         });
         let _ = take_log();
         let (real, dead) = match built {
@@ -894,7 +930,12 @@ impl World for PkWorld {
 
     fn teardown(mut self) {
         let real = self.real.take();
-        let _ = catch(move || drop(real));
+        let _ = catch(move || {
+            if let Some(r) = real.as_ref() {
+                r.leak_table.borrow_mut().clear();
+            }
+            drop(real)
+        });
         let _ = take_log();
     }
 
